@@ -115,3 +115,59 @@ Proof.
          | context [if ?c then _ else _] => let E := fresh "E" in destruct c eqn:E
          end; inversion H; subst; try reflexivity; try (exfalso; lia); exfalso; apply He; reflexivity.
 Qed.
+
+(* the hand model's apply_send / user_receive (the steps of the C01 invariant) ARE the translated vm.applySend /
+   vm.applyReceive: with the translation's inputs instantiated by what the model reads — the balance of the sender, the
+   verdict of the embedded lookup / ValidateSendBlock — the source debits exactly where the model records the send, and
+   the balance SubBalance writes is the model's new balance; the model's refusals are the source's errors, its E_PANIC is
+   the panic of SubBalance (zero token standard with an uncovered amount). *)
+Theorem apply_send_is_source s h from to z v gm vs :
+  hash_used h s = false ->
+  let b := get_bal (from, z) (bal s) in
+  let vok := (gm =? Err_constants_ErrNotContractAddress) || ((gm =? 0) && (vs =? 0)) in
+  match apply_send s h from to z v vok with
+  | inl s' =>
+      applySend gm vs z b 0 v = GoSem.Ok (0, Some v) /\
+      SubBalance v b 0 0 = GoSem.Ok (Some (get_bal (from, z) (bal s')))
+  | inr e =>
+      if e =? E_METHOD then exists c, c <> 0 /\ applySend gm vs z b 0 v = GoSem.Ok (c, None)
+      else if e =? E_INSUFFICIENT then applySend gm vs z b 0 v = GoSem.Ok (Err_constants_ErrInsufficientBalance, None)
+      else applySend gm vs z b 0 v = GoSem.Ok (0, Some v) /\ SubBalance v b 0 0 = GoSem.Panic
+  end.
+Proof.
+  intros Hh. cbv zeta. unfold apply_send. rewrite Hh.
+  unfold applySend. cbv zeta. rewrite !enough_funds_num. cbn [bind]. rewrite sub_balance_num.
+  unfold enough_funds, sub_balance, ZeroId. cbv zeta.
+  destruct (Z.eqb_spec gm Err_constants_ErrNotContractAddress) as [Hn|Hn]; cbn [orb negb].
+  - destruct (if z =? 0 then true else v <=? get_bal (from, z) (bal s)) eqn:Ef; cbn [negb].
+    + destruct (v <=? get_bal (from, z) (bal s)) eqn:Ev.
+      * unfold push_send; cbn [bal]. rewrite get_set_bal_same. split; reflexivity.
+      * cbn. split; reflexivity.
+    + cbn. reflexivity.
+  - destruct (Z.eqb_spec gm 0) as [H0|H0]; cbn [andb negb].
+    + destruct (Z.eqb_spec vs 0) as [Hv|Hv]; cbn [negb].
+      * destruct (if z =? 0 then true else v <=? get_bal (from, z) (bal s)) eqn:Ef; cbn [negb].
+        -- destruct (v <=? get_bal (from, z) (bal s)) eqn:Ev.
+           ++ unfold push_send; cbn [bal]. rewrite get_set_bal_same. split; reflexivity.
+           ++ cbn. split; reflexivity.
+        -- cbn. reflexivity.
+      * cbn. exists vs. split; [exact Hv|reflexivity].
+    + cbn. exists gm. split; [exact H0|reflexivity].
+Qed.
+
+Theorem user_receive_is_source enf s a h s' :
+  user_receive enf s a h = (s', ROk true) ->
+  exists sd, find_send h (sends s) = Some sd /\
+    applyReceive 0 0 (s_amt sd) = (0, Some (s_amt sd)) /\
+    AddBalance (s_amt sd) (get_bal (a, s_zts sd) (bal s)) 0 0 = GoSem.Ok (Some (get_bal (a, s_zts sd) (bal s'))).
+Proof.
+  unfold user_receive. intros H.
+  destruct (is_emb a); [discriminate|].
+  destruct (find_send h (sends s)) as [sd|]; [|discriminate].
+  repeat match type of H with
+         | context [if ?c then _ else _] => destruct c; try discriminate
+         end.
+  inversion H; subst. exists sd. split; [reflexivity|]. split; [reflexivity|].
+  unfold AddBalance, add_balance. cbv zeta. change (0 =? 0) with true. cbn [guard bal].
+  rewrite get_set_bal_same. reflexivity.
+Qed.
